@@ -48,6 +48,15 @@ const JCMD: Namespace<'_> = Namespace(b"http://yang.juniper.net/junos/jcmd");
 
 struct Maybe<T>(Option<(Name, T)>);
 
+/// Read the text of a `<name>` element. `read_text` yields the raw span of the document, so
+/// character and entity references (`&amp;`, `&lt;`, ..) have to be resolved here; otherwise the
+/// name is escaped a second time when it is written back in an update.
+fn read_name(reader: &mut NsReader<&[u8]>, tag: &BytesStart<'_>) -> Result<Name, ReadError> {
+    let raw = reader.read_text(tag.to_end().name())?;
+    let name = quick_xml::escape::unescape(&raw).map_err(quick_xml::Error::from)?;
+    Ok(Name::new(name))
+}
+
 impl<T> ReadXml for Policies<T>
 where
     Maybe<T>: ReadXml,
@@ -184,7 +193,7 @@ impl ReadXml for Maybe<Candidate> {
                 (ResolveResult::Bound(XNM), Event::Start(tag))
                     if tag.local_name().as_ref() == b"name" && name.is_none() =>
                 {
-                    name = Some(reader.read_text(tag.to_end().name()).map(Name::new)?);
+                    name = Some(read_name(reader, &tag)?);
                 }
                 (ResolveResult::Bound(XNM), Event::Start(tag))
                     if tag.local_name().as_ref() == b"then" && !reject_policy =>
@@ -243,7 +252,7 @@ impl ReadXml for Maybe<Installed> {
                     if tag.local_name().as_ref() == b"name" && name.is_none() =>
                 {
                     tracing::debug!(?tag);
-                    name = Some(reader.read_text(tag.to_end().name()).map(Name::new)?);
+                    name = Some(read_name(reader, &tag)?);
                     tracing::debug!(?name);
                 }
                 (ResolveResult::Bound(XNM), Event::Start(tag))
